@@ -110,6 +110,7 @@ type loopInfo struct {
 	hasDec   bool
 	preNow   Term
 	modArrs  []string
+	locs     []modLoc
 }
 
 func (v *FnVerifier) note(format string, args ...interface{}) {
